@@ -134,6 +134,7 @@ def make_plan(tree, seed, i, tier="quick"):
     probe = {
         "include_order": rng.randrange(1 << 30) if rng.random() < 0.8 else None,
         "api": apisurface.sample(rng),
+        "user_macros": rng.random() < 0.3,
     }
     return {
         "seed": seed,
@@ -376,7 +377,7 @@ def matrix_plans(tree, seed, tier):
             "env": {"listdir": {}, "listdir_default": _listdir_spec(rng), "extra_entries": {}, "clock": ["2026-09-26T12:00:00"], "git": "ok:matrix", "stdout_mode": "block", "stdout_bufsize": 4096, "crlf": False},
             "faults": [],
             "toolchain": {"a": list(tcs[i % len(tcs)]), "matrix": True},
-            "probe": {"include_order": rng.randrange(1 << 30), "api": apisurface.names()},
+            "probe": {"include_order": rng.randrange(1 << 30), "api": apisurface.names(), "user_macros": i % 2 == 0},
         })
     return plans
 
